@@ -1,4 +1,4 @@
-CONSTANTS MaxGen = 3 DropStyledBlank = FALSE RowSkip = "never"
+CONSTANTS MaxGen = 3 DropStyledBlank = FALSE ColFold = "adjacent" RowSkip = "never"
 SPECIFICATION TraceSpec
 POSTCONDITION Consumed
 CHECK_DEADLOCK FALSE
